@@ -75,9 +75,11 @@ def gen_reload_case(rng):
     burst = [rng.randint(0, 1) for _ in kinds]
     gen_no = [0]
 
+    over = [dict() for _ in kinds]            # per-value overrides of each rule
+
     def load():
         gen_no[0] += 1
-        rules = [hs_rule("%s%d" % (rid, gen_no[0]), "q", "r", idx, key, thr[j], 0, burst[j], d, cap, []) for j, (rid, idx, key) in enumerate(kinds)]
+        rules = [hs_rule("%s%d" % (rid, gen_no[0]), "q", "r", idx, key, thr[j], 0, burst[j], d, cap, sorted(over[j].items())) for j, (rid, idx, key) in enumerate(kinds)]
         if rng.random() < 0.5:
             rules.reverse()
         ops.append("hs.load res=r rules=" + ",".join(rules))
@@ -88,8 +90,15 @@ def gen_reload_case(rng):
     same_string = rng.random() < 0.5
     for k in range(rng.randint(12, 30)):
         if k in reloads:
+            only_overrides = rng.random() < 0.35      # a reload in which nothing but per-value overrides changes (seed C06-e)
             for j in range(len(kinds)):
-                if rng.random() < 0.85:
+                if only_overrides:
+                    v = rng.choice(["a", "b"])
+                    if v in over[j] and rng.random() < 0.4:
+                        del over[j][v]
+                    else:
+                        over[j][v] = over[j].get(v, 0) + rng.choice([1, 2, 5])
+                elif rng.random() < 0.85:
                     thr[j] += rng.choice([1, 2])
                 else:
                     burst[j] += 1
